@@ -10,6 +10,9 @@ from simlib.props import c02
 
 ID = "C19"
 LEVEL = "exploration"
+# a worker that hangs or blows up in native code while running a case of this
+# property is re-run in a sandboxed interpreter; a second hang is the verdict
+HANG_IS_VIOLATION = True
 TECHNIQUE = ("deterministic simulation: prefixes of several epochs of the "
              "repeat=True stream of every interface, LazyPool/executor paths "
              "under the seeded scheduler, async on the virtual-time loop; "
